@@ -57,6 +57,18 @@ CHECKS = {
  "C20": ("exploration", "boundary-value grid of headers/footers for lengths 0..64 + all truncations/single-byte mutations of small FSTs under catch_unwind; forbid(unsafe_code) lint",
          "No panic from open + metadata + verify on ~18M untrusted byte strings (overflow checks on); the library compiles under -F unsafe_code.",
          "The unsafe clause is a compiler lint, not model checking. Later operations on garbage may panic by the property's wording.", "DESIGN.md section 5 C20"),
+ "C13": ("exploration", "invariant on the builder's live heap (counting allocator) checked in every state of exhaustively enumerated small scopes under tiny cache geometries + finite N ladder",
+         "After and at the peak during every insert of every history of the small scopes the builder's live heap stays under a bound without any term in the number of keys; ladder N = 1e4..4e5 (thorough 1e7) with plateau assertion for small caches. The asymptotic 'for all N' clause is not decided by a bounded exploration.",
+         "Bound formula B(rows,cols,F,L) is the harness's reading of 'a constant determined by cache geometry, fan-out and key length'. The ladder is a finite family, not an enumeration.", "DESIGN.md section 5 C13"),
+ "C14": ("exploration", "zero-allocation and live-heap invariants (counting allocator) checked at every next() of every traversal/set operation of exhaustively enumerated small scopes + finite N ladder",
+         "Open and lookups on borrowed bytes allocate nothing; live heap after every next() of stream/range/search and of k-way set operations is bounded by a function of L and k only; ladder N = 1e4, 1e5 (thorough 1e6) shows identical extra heap.",
+         "'for all N' beyond the ladder is not decided.", "DESIGN.md section 5 C14"),
+ "C15": (MC, "byte equality over all front ends for the enumerated sequences + exhaustive call-level interleavings of 2-3 concurrent builders + digests across threads and processes",
+         "All 17 front ends and 4 sinks give identical bytes (also under evicting cache geometries); every multiset permutation of the API calls of two (three) builders leaves each builder's output equal to its solo run; whole-scope digest equal on 8 threads and in 4 processes.",
+         "No synchronisation exists in the library (scanned), so a controlled thread scheduler would be vacuous; threads/processes part is a repetition, not an enumeration.", "DESIGN.md section 5 C15"),
+ "C19": (MC, "stateful exhaustive exploration of all channel-level schedules of the real merge pipeline (controlled scheduler, happens-before state caching) x configuration grid vs merge model",
+         "The real cmd::map/set::run runs in-process under a controlled scheduler (hook H5): all interleavings of listed configurations (up to 3 batches / 2-3 workers / 2 generations) are explored; every complete execution must give a verifiable FST equal to the model merge and byte-identical across schedules; grid of all small inputs x batch/fd/threads/mode under the default schedule and the free-running real binary.",
+         "Threads interact only through channels (checked by unique-file trace); equal per-thread histories imply equal futures.", "DESIGN.md section 5 C19"),
 }
 PENDING = {}
 
@@ -74,7 +86,7 @@ def main():
                 "thorough_cmd": f"./check {pid} thorough",
                 "evidence_file": f"/verif/evidence/{pid}.json",
                 "replay_cmd_template": f"./check {pid} --replay {{path}}",
-                "engine": "mc-harness",
+                "engine": "binharness" if pid == "C19" else "mc-harness",
                 "level_claimed": {"category": level, "text": text, "design_ref": ref},
                 "level_note": note,
                 "technique": tech,
